@@ -158,8 +158,9 @@ type respRec struct {
 
 type hookWriter struct {
 	*httptest.ResponseRecorder
-	cb    func(int)
-	fired bool
+	cb      func(int)
+	fired   bool
+	yielded bool
 }
 
 func (h *hookWriter) Write(b []byte) (int, error) {
@@ -169,9 +170,15 @@ func (h *hookWriter) Write(b []byte) (int, error) {
 			h.cb(h.ResponseRecorder.Code)
 		}
 	}
-	// a write to the connection is a scheduling point: other requests run
-	// between two writes of one response (gzip header, data, trailer ...)
-	simhook.Yield("net:response-write")
+	// the first write to the connection is a scheduling point: other requests
+	// run while this response is on its way out (between the gzip header and
+	// the data, say).  Only the first: how many writes a response takes depends
+	// on its exact size, which for some formats depends on Go's map iteration
+	// order (jar manifests), and the schedule must not.
+	if !h.yielded {
+		h.yielded = true
+		simhook.Yield("net:response-write")
+	}
 	return h.ResponseRecorder.Write(b)
 }
 
